@@ -14,6 +14,23 @@ from props._machine import run_mgen
 from vlib.core import BUILD
 
 
+from props.C05 import GROWTH
+
+# kernels where assemble and compute take different paths: buckets under contractions, sums of
+# contractions, compressed outputs above dense layers
+SHAPES = GROWTH + [
+    ["a(i) = b(i,j,k) * c(j) * d(k)", {"a": "s", "b": "dss", "c": "d", "d": "d"}],
+    ["a(i) = b(i,j,k) * c(j) * d(k)", {"a": "s", "b": "sss", "c": "s", "d": "d"}],
+    ["a(i) = b(i,j) * c(j) + d(i,k) * e(k)", {"a": "s", "b": "ds", "c": "d", "d": "ds", "e": "d"}],
+    ["a(i) = b(i,j) * c(j) + d(i,k) * e(k)", {"a": "s", "b": "ss", "c": "s", "d": "ds", "e": "s"}],
+    ["a(i) = b(i,j) * c(j) + d(i)", {"a": "s", "b": "ds", "c": "d", "d": "s"}],
+    ["a(i,j) = b(i,k) * c(k,j) + d(i,j)", {"a": "ss", "b": "ds", "c": "ds", "d": "ds"}],
+    ["a(i,j) = b(i,j,k) * c(k)", {"a": "sd", "b": "dds", "c": "d"}],
+    ["a(i,l) = b(i,j) * c(j,k) * d(k,l)", {"a": "sd", "b": "ds", "c": "ds", "d": "dd"}],
+    ["a() = b(i,j) * c(i,j)", {"a": "", "b": "ds", "c": "ss"}],
+]
+
+
 def run(chk):
     quick = chk.tier == "quick"
     chk.rule = ("sweep.TEMPLATES x formats x index sizes {0,1,2,3} x sparsity patterns; histories assemble;compute and "
@@ -32,8 +49,8 @@ def run(chk):
     for cap in (["2", None] if quick else ["1", "2", None]):
         cfg = {"seed": chk.seed * 17 + 3 + (int(cap) if cap else 0), "kinds": ["hist", "structure"],
                "fmt_cap": 3 if quick else 10, "n_inputs": 2 if quick else 4,
-               "max_problems": 60 if quick else 600, "per_shard": 8, "fuel": 400000,
-               "certs": True}
+               "max_problems": (len(SHAPES) + 35) if quick else 600, "per_shard": 8, "fuel": 400000,
+               "certs": True, "priority": SHAPES}
         index, failing = run_mgen(chk, f"cap{cap or 'default'}", cfg, cap)
         if index is None:
             continue
